@@ -28,8 +28,8 @@ ASSUMPTIONS = ["interrupts land between Python lines of package code, not inside
 PROBES = ["torn_then_recomputed", "two_histories_same_K", "unstep_after_2_steps", "scribble_then_compute",
           "evict_then_compute"]
 TIERS = {
-    "quick": {"runs": 6000, "wall": 40, "batch": 12, "shrink_s": 40},
-    "thorough": {"runs": 400000, "wall": 600, "batch": 24, "shrink_s": 120},
+    "quick": {"runs": 60000, "wall": 40, "batch": 32, "shrink_s": 40},
+    "thorough": {"runs": 10000000, "wall": 900, "batch": 48, "shrink_s": 120},
 }
 
 
